@@ -18,6 +18,7 @@ TRUSTED = ("CPython ast", "list model of np.arange/argwhere/ravel/max")
 TECHNIQUE = "static analysis: key-domain (dead guard) propagation, def-use of the level cap, finite-case folding"
 
 from . import loader_folds as lfold
+from . import io_folds as iof
 from . import layout_folds as lay
 
 
@@ -34,7 +35,7 @@ def r2_leaf(run, tree):
 
 def r3(run, tree):
     run.rule("C12.R3", "find_max_amr_level returns the highest accepted level", "D7 on a list model", "", floor=6)
-    lr.check_find_max_level(run, tree)
+    iof.check_find_max_level(run, tree)
     lr.check_hilbert_cpu_list(run, tree)
 
 
